@@ -1,9 +1,27 @@
 from common import T_COMMON
 
 CFG = dict(
-    theorems=["decodeN_encodeComps"],
+    theorems=["leVal_leBytes", "decodeN_encodeComps",
+              "glb_frame_length", "glb_frame",
+              "isMinOf_fold", "isMaxOf_fold",
+              "tiles_append", "tiles_inside", "tiles_disjoint",
+              "decodeAcc_append", "accOK_append", "accOK_new_vec", "boundsOK_vec",
+              "inv_step", "inv_run",
+              "gltf_bytesWritten_eq_len", "gltf_views_tile", "gltf_accessor_fits", "gltf_minmax",
+              "gltf_decode_image", "gltf_decode_indices", "gltf_index_width",
+              "gltf_alignment_counterexample", "gltf_alignment_partial"],
     streams=[dict(name="c06", n=dict(quick=150, thorough=4000))],
-    trusted=T_COMMON + [],
-    residue=[],
-    assumptions=[],
+    trusted=T_COMMON + [
+        "hand-written model PolyVerif/Model/Gltf.lean of formats/gltf/{writer,write,model,model_trackers}.go, tied by exact comparison of the parsed document, the buffer bytes and the GLB file bytes (stream c06)",
+        "the harness's independent reader (own GLB framing, own structs + encoding/json, base64) and its canonical summary",
+        "float64→float32 narrowing: Lean Float.toFloat32 in the driver vs Go float32(x), compared bit-for-bit through the buffer bytes",
+        "colour factors roundFloat(c/65535,3) computed at Float in the model, compared bit-for-bit"],
+    residue=[
+        "scene-level lifting: the invariant theorems are proved for ANY admissible sequence of the exported low-level writes (WriteVector2/3/4, WriteIndices), which is what AddScene issues; that AddMesh/AddMaterial/AddTexture/AddScene issue exactly such a sequence and keep every mesh/material/texture/image/sampler/node reference in range (gltf_refs_in_range), the dedup laws (gltf_dedup_consistent), node TRS (gltf_node_trs) and extension declaration (gltf_extensions_declared) are NOT theorems: they are corresponded exactly (c06.doc) and checked by the oracles c06.holds.valid / decode / dedup on the implementation's output",
+        "C06_alignment (full clause) is false of the code: gltf_alignment_counterexample; proved part gltf_alignment_partial (all vectors FLOAT, every index block a multiple of 4 bytes)",
+        "glb_frame reads the fixed header words and the JSON chunk back from the bytes; the BIN chunk is stated structurally (drop (20+jl) = glbBinPart bin, by definition chunk header ++ buffer ++ zero padding) rather than through readFrame/frameOK",
+        "bounds of data containing ±Inf (the writer's MaxFloat64 sentinel survives +Inf) and VEC4 data containing NaN: excluded by VecsOK; encoding/json refuses such documents (model: marshalOK), corresponded as 'err'",
+        "JSON text layout; skins and animations; base64 (std); Float1 attributes (never written by AddMesh); material Extras; lights' payload beyond count/position; topologies other than triangle/point (written without a mode)"],
+    assumptions=["pointer identity of meshes/textures = position in the scene's heap (one immutable object per pointer during a write)",
+                 "byte-typed (Joint) attribute values are integers in [0,255]"],
 )
